@@ -99,15 +99,43 @@ def demangle_many(names):
     return dict(zip(names, outs))
 
 
-_HASHED = re.compile(r"^_ZN.*17(h[0-9a-f]{16})E$")
+_HASHED = re.compile(r"^_ZN.*17(h[0-9a-f]{16})E((?:\.[\w$.]+)?)$")
+_V0 = re.compile(r"^_R.*?((?:\.[\w$.]+)?)$")
+_DISAMB = re.compile(r"\[[0-9a-f]{1,16}\]")
 
 
 def strip_hash(mangled, dem):
-    """(name without the legacy-mangling hash component, hash or None)."""
+    """Path spelling of a demangled name: without the legacy `::h<hash>` component, without the crate
+    disambiguators `[..]` of v0 names (what the demangler's alternate form omits).  Returns (path, hash or None)."""
     m = _HASHED.match(mangled)
     if m and dem.endswith("::" + m.group(1)):
         return dem[: -len(m.group(1)) - 2], m.group(1)
+    if mangled.startswith("_R"):
+        return _DISAMB.sub("", dem), None
     return dem, None
+
+
+def symbol_forms(mangled, dem):
+    """Spellings under which a symbol's demangled name may be read; the LAST one is the full spelling
+    (hash / disambiguator / `.suffix` kept, what a verbatim demangler prints)."""
+    base, h = strip_hash(mangled, dem)
+    forms = [base]
+    if h is not None:
+        forms.append(base + "::" + h)
+        suffix = _HASHED.match(mangled).group(2)
+        if suffix:
+            forms += [base + suffix, base + "::" + h + suffix]
+    elif mangled.startswith("_R"):
+        if dem != base:
+            forms.append(dem)
+        suffix = _V0.match(mangled).group(1)
+        if suffix and not dem.endswith(suffix):
+            forms += [base + suffix, dem + suffix]
+    out = []
+    for f in forms:
+        if f not in out:
+            out.append(f)
+    return out
 
 
 def decode_functions(obj):
@@ -389,8 +417,7 @@ def ground_truth():
         names = decode_symbols(obj)
         dm = demangle_many(sorted({n for _, _, _, n in names}))
         for val, typ, ndx, name in names:
-            dem, h = strip_hash(name, dm[name])
-            forms = [dem] if h is None else [dem, dem + "::" + h]
+            forms = symbol_forms(name, dm[name])
             gt["symbols"].append({"obj": oi, "addr": val, "type": typ, "ndx": ndx, "mangled": name, "forms": forms})
     # system libraries: symbols only (their functions are outside the compared universe, see design/C17.md)
     puppet_real = {os.path.realpath(o) for o in objs}
